@@ -411,3 +411,31 @@ Proof.
   unfold cluster_at_threshold. now rewrite E.
 Qed.
 Print Assumptions C05_weight_threshold_same_clusters.
+
+(* ------------------------------------------------------------------------------------ *)
+(* Edge rows whose match_probability is NULL (thr_edges_n / cluster_at_threshold_n take nullable
+   probabilities): such a row never qualifies under a threshold - not even threshold 0 - and
+   qualifies when no threshold is given ("all edges when no threshold is given"). *)
+Theorem C05_null_probability_never_qualifies :
+  forall t edges a b,
+    In (a, b) (thr_edges_n (Some t) edges) <-> exists p, In (a, b, Some p) edges /\ (t <= p)%Q.
+Proof. exact thr_edges_n_in. Qed.
+Print Assumptions C05_null_probability_never_qualifies.
+
+Theorem C05_nullable_probabilities_reduce :
+  forall nodes edges t,
+    cluster_at_threshold_n nodes edges (Some t) = cluster_at_threshold nodes (non_null edges) (Some t) /\
+    cluster_at_threshold_n nodes edges None = solve_cc nodes (map fst edges).
+Proof.
+  intros. unfold cluster_at_threshold_n, cluster_at_threshold.
+  now rewrite thr_edges_n_some, thr_edges_n_none.
+Qed.
+Print Assumptions C05_nullable_probabilities_reduce.
+
+(* threshold 0 is a threshold: the NULL edge 1-2 does not link, without threshold it does *)
+Example C05_null_edge_at_threshold_zero :
+  cluster_at_threshold_n [1; 2; 3] [(1, 2, None); (2, 3, Some (Qmake 1 2))] (Some (Qmake 0 1))
+    = Some [(1, 1); (2, 2); (3, 2)] /\
+  cluster_at_threshold_n [1; 2; 3] [(1, 2, None); (2, 3, Some (Qmake 1 2))] None
+    = Some [(1, 1); (2, 1); (3, 1)].
+Proof. split; vm_compute; reflexivity. Qed.
